@@ -11,6 +11,7 @@ import NurbsVerif.Lemmas.UniqueLocal
 import NurbsVerif.Lemmas.CdbSupport
 import NurbsVerif.Lemmas.BasisDersOneEnd
 import NurbsVerif.Lemmas.RefineCount
+import NurbsVerif.Lemmas.SpanR
 
 /-!
 # C03  Basis functions and knot-span search satisfy their defining identities
@@ -416,5 +417,96 @@ theorem basisFunDersOne_last_knot_witness :
 /-- non-vacuity of the clamped-end hypotheses: `0,0,0,1,1,1`, `p = 2`, `k = 2`, `m = 6` -/
 example : (2:ℕ) ≤ 2 ∧ 2 + 2 + 2 = 6 ∧ fnOf ([0,0,0,1,1,1] : List ℚ) 2 < fnOf ([0,0,0,1,1,1] : List ℚ) (2+1) ∧
     fnOf ([0,0,0,1,1,1] : List ℚ) (2+1) = fnOf ([0,0,0,1,1,1] : List ℚ) (6-1) := by decide +kernel
+
+/-! ### the REPAIRED span searches (F-01b): step back to the last non-empty span at the domain end
+
+`findSpanLinearR` / `findSpanBinR` (`Model/SpanR.lean`) are literal transcriptions of `helpers.find_span_linear` /
+`find_span_binsearch` AFTER the repair of finding F-01b: after the first loop (before the bisection, in the tolerance
+shortcut) the index steps back while the span is empty.  The correspondence check compares them with the real functions
+on ordinary knot vectors and on knot vectors with an EMPTY last domain span (`U_{n-1} = U_n`), the domain end included
+(ops `span linr` / `span binr`).  `findSpanLinear` / `findSpanBin` above are the searches without the step back. -/
+
+/-- **The repaired searches return what the searches without step back return whenever the span found is not empty**:
+    linear search – for every knot function and parameter with `U_k ≠ U_{k+1}` at the span `k` found; in particular on the
+    whole closed domain of a knot function with non-empty last span (`KnotsOk`), and strictly below the domain end of any
+    sorted knot function; binary search – for every parameter and tolerance when the last span is not empty.  Hence all
+    statements of this file about `findSpanLinear` / `findSpanBin` under `KnotsOk` are statements about the repaired code. -/
+theorem findSpanR_eq_unrepaired (p : ℕ) (U : ℕ → K) (n : ℕ) (u : K) (hpn : p + 1 ≤ n) :
+    (U (findSpanLinear p U n u) ≠ U (findSpanLinear p U n u + 1) → findSpanLinearR p U n u = findSpanLinear p U n u) ∧
+    (KnotsOk p U n → U p ≤ u → u ≤ U n → findSpanLinearR p U n u = findSpanLinear p U n u) ∧
+    (Monotone U → U p ≤ u → u < U n → findSpanLinearR p U n u = findSpanLinear p U n u) ∧
+    (∀ tol, U (n - 1) ≠ U n → findSpanBinR p U n u tol = findSpanBin p U n u tol) :=
+  ⟨findSpanLinearR_eq_of_nonempty p U n u hpn, fun h => findSpanLinearR_eq_of_knotsOk h u,
+   fun hm => findSpanLinearR_eq_of_lt p U n u hpn hm, fun tol => findSpanBinR_eq_of_last_nonempty p U n u tol hpn⟩
+
+/-- **What the repaired linear search returns, for EVERY valid knot vector** – non-decreasing knots, `n ≥ p + 1` control
+    points, a domain that is not a single point (`U_p < U_n`); NO hypothesis on the last span – and every parameter of the
+    closed domain `[U_p, U_n]`: a legal span index `p ≤ k < n` whose span is NOT EMPTY (`U_k < U_{k+1}`) and contains `u`
+    (`U_k ≤ u ≤ U_{k+1}`); for `u < U_n` it is the half-open knot interval of `u`; for `u = U_n` it is the LAST NON-EMPTY
+    span of the domain (its right end is `U_n`, every later span `i < n` is empty) – "the last one at the domain end". -/
+theorem findSpanLinearR_spec (p : ℕ) (U : ℕ → K) (n : ℕ) (u : K) (hpn : p + 1 ≤ n) (hm : Monotone U)
+    (hdom : U p < U n) (hlo : U p ≤ u) (hhi : u ≤ U n) :
+    p ≤ findSpanLinearR p U n u ∧ findSpanLinearR p U n u < n ∧
+    U (findSpanLinearR p U n u) < U (findSpanLinearR p U n u + 1) ∧
+    U (findSpanLinearR p U n u) ≤ u ∧ u ≤ U (findSpanLinearR p U n u + 1) ∧
+    (u < U n → u < U (findSpanLinearR p U n u + 1)) ∧
+    (u = U n → U (findSpanLinearR p U n u + 1) = U n ∧ ∀ i, findSpanLinearR p U n u < i → i < n → U i = U (i + 1)) :=
+  findSpanLinearR_dom p U n u hpn hm hdom hlo hhi
+
+/-- … and that span is determined by these properties: below the domain end the half-open interval containing `u` is
+    unique (`findSpanLinear_unique`); at the domain end ANY non-empty span `k' < n` with right end `U_n` is the one
+    returned. -/
+theorem findSpanLinearR_unique (p : ℕ) (U : ℕ → K) (n : ℕ) (hpn : p + 1 ≤ n) (hm : Monotone U) (hdom : U p < U n) :
+    (∀ u k', U p ≤ u → u < U n → U k' ≤ u → u < U (k' + 1) → findSpanLinearR p U n u = k') ∧
+    (∀ k', k' < n → U k' < U (k' + 1) → U (k' + 1) = U n → findSpanLinearR p U n (U n) = k') :=
+  ⟨fun u k' hlo hhi h1 h2 => by
+      rw [findSpanLinearR_eq_of_lt p U n u hpn hm hlo hhi]
+      exact Geomdl.findSpanLinear_unique p U n u hpn hm hlo hhi k' h1 h2,
+   fun k' h2 h3 h4 => findSpanLinearR_right_end_unique p U n hpn hm hdom k' h2 h3 h4⟩
+
+/-- **Repaired binary search = repaired linear search** (termination included) on the closed domain of every sorted knot
+    function, provided the tolerance shortcut at the domain end only fires for parameters of the last NON-EMPTY span
+    (the span the search returns at `U_n`; for a non-empty last span this is the hypothesis of `findSpanBin_eq_linear`,
+    violated by F-17b).  `2 * tol < 1` as there (start index of the bisection). -/
+theorem findSpanBinR_eq_linearR (p : ℕ) (U : ℕ → K) (n : ℕ) (u tol : K) (hpn : p + 1 ≤ n)
+    (hm : Monotone U) (hlo : U p ≤ u) (hhi : u ≤ U n) (htol : 0 ≤ tol) (_htol2 : 2 * tol < 1)
+    (hend : absK (U n - u) ≤ tol → U (findSpanLinearR p U n (U n)) ≤ u) :
+    findSpanBinR p U n u tol = some (findSpanLinearR p U n u) :=
+  Geomdl.findSpanBinR_eq_linearR p U n u tol hpn hm hlo hhi htol hend
+
+/-- **The step back is what the repair adds** (closed witness, the knot vector of finding F-01b): degree 2,
+    `U = [0,0,1,2,4,4,5,5]`, 5 control points, domain `[1, 4]`, `u = 4 = U_5`: the search without step back returns the
+    EMPTY span 4 (`U_4 = U_5`), the repaired linear and binary searches return 3, the last non-empty span `[2, 4]`;
+    strictly inside the domain (`u = 39/10`) all four agree.
+    (Closed witness check: a statement about this one concrete input, decided by evaluation.) -/
+theorem findSpanR_witness_F01b :
+    findSpanLinear 2 (fnOf ([0,0,1,2,4,4,5,5] : List ℚ)) 5 4 = 4 ∧
+    findSpanLinearR 2 (fnOf ([0,0,1,2,4,4,5,5] : List ℚ)) 5 4 = 3 ∧
+    findSpanBin 2 (fnOf ([0,0,1,2,4,4,5,5] : List ℚ)) 5 4 (1/100000) = some 4 ∧
+    findSpanBinR 2 (fnOf ([0,0,1,2,4,4,5,5] : List ℚ)) 5 4 (1/100000) = some 3 ∧
+    findSpanLinear 2 (fnOf ([0,0,1,2,4,4,5,5] : List ℚ)) 5 (39/10) = 3 ∧
+    findSpanLinearR 2 (fnOf ([0,0,1,2,4,4,5,5] : List ℚ)) 5 (39/10) = 3 ∧
+    findSpanBinR 2 (fnOf ([0,0,1,2,4,4,5,5] : List ℚ)) 5 (39/10) (1/100000) = some 3 := by
+  decide +kernel
+
+/-- non-vacuity of `findSpanLinearR_spec` / `findSpanBinR_eq_linearR`: that knot vector meets the hypotheses (sorted,
+    `n ≥ p + 1`, `U_2 = 1 < 4 = U_5`) although its last domain span is empty, at the domain end `u = 4`; an end knot
+    repeated `p + 2` times does too -/
+example : Monotone (fnOf ([0,0,1,2,4,4,5,5] : List ℚ)) ∧ 2 + 1 ≤ 5 ∧
+    fnOf ([0,0,1,2,4,4,5,5] : List ℚ) 2 < fnOf ([0,0,1,2,4,4,5,5] : List ℚ) 5 ∧
+    fnOf ([0,0,1,2,4,4,5,5] : List ℚ) 2 ≤ 4 ∧ (4:ℚ) ≤ fnOf ([0,0,1,2,4,4,5,5] : List ℚ) 5 ∧
+    fnOf ([0,0,1,2,4,4,5,5] : List ℚ) (5 - 1) = fnOf ([0,0,1,2,4,4,5,5] : List ℚ) 5 :=
+  ⟨mono_of_pairwise _ (by decide +kernel), by decide, by decide +kernel, by decide +kernel, by decide +kernel,
+   by decide +kernel⟩
+example : (absK (fnOf ([0,0,1,2,4,4,5,5] : List ℚ) 5 - 4) ≤ (1/100000 : ℚ) →
+    fnOf ([0,0,1,2,4,4,5,5] : List ℚ) (findSpanLinearR 2 (fnOf ([0,0,1,2,4,4,5,5] : List ℚ)) 5
+      (fnOf ([0,0,1,2,4,4,5,5] : List ℚ) 5)) ≤ 4) := by decide +kernel
+example : Monotone (fnOf ([0,0,0,1/2,1,1,1,1] : List ℚ)) ∧
+    findSpanLinearR 2 (fnOf ([0,0,0,1/2,1,1,1,1] : List ℚ)) 5 1 = 3 ∧
+    findSpanLinear 2 (fnOf ([0,0,0,1/2,1,1,1,1] : List ℚ)) 5 1 = 4 :=
+  ⟨mono_of_pairwise _ (by decide +kernel), by decide +kernel, by decide +kernel⟩
+/-- non-vacuity of `findSpanR_eq_unrepaired`: a knot vector with non-empty last span -/
+example : KnotsOk 2 (fnOf ([0,0,0,1/2,1,1,1] : List ℚ)) 4 :=
+  ⟨mono_of_pairwise _ (by decide +kernel), by decide, by decide +kernel⟩
 
 end C03
